@@ -3,6 +3,7 @@
 package main
 
 import (
+	"errors"
 	"fmt"
 	"sync"
 	"sync/atomic"
@@ -137,8 +138,7 @@ func (r *recorder) onCommit(inner db.KeyValueReader) {
 		}
 	}
 	_ = cur
-	r.mu.Lock()
-	defer r.mu.Unlock()
+	// callers hold r.mu (recDB.write): nothing is logged between a commit becoming visible and its entry
 	if !r.enabled {
 		return
 	}
@@ -242,47 +242,52 @@ func (r *recorder) drain(wantNewHeads, wantReorgs int, timeoutBeats int64) bool 
 
 type recDB struct {
 	db.KeyValueStore
-	rec *recorder
+	rec    *recorder
+	writes int          // committed or refused write calls since recording was enabled
+	failAt map[int]bool // these write calls fail (before touching the database)
+	failed int
+}
+
+var errInjectedDB = errors.New("injected database failure")
+
+// write performs one write call of the database. The trace lock is held across it, so that nothing
+// (an answer of the source, a notification) is logged between the commit becoming visible to readers
+// and its own log entry.
+func (d *recDB) write(op func() error) error {
+	d.rec.mu.Lock()
+	defer d.rec.mu.Unlock()
+	if d.rec.enabled {
+		d.writes++
+		if d.failAt[d.writes] {
+			d.failed++
+			return errInjectedDB
+		}
+	}
+	err := op()
+	if err == nil {
+		d.rec.onCommit(d.KeyValueStore)
+	}
+	return err
 }
 
 func (d *recDB) Update(fn func(db.IndexedBatch) error) error {
-	err := d.KeyValueStore.Update(fn)
-	if err == nil {
-		d.rec.onCommit(d.KeyValueStore)
-	}
-	return err
+	return d.write(func() error { return d.KeyValueStore.Update(fn) })
 }
 
 func (d *recDB) Write(fn func(db.Batch) error) error {
-	err := d.KeyValueStore.Write(fn)
-	if err == nil {
-		d.rec.onCommit(d.KeyValueStore)
-	}
-	return err
+	return d.write(func() error { return d.KeyValueStore.Write(fn) })
 }
 
 func (d *recDB) Put(k, v []byte) error {
-	err := d.KeyValueStore.Put(k, v)
-	if err == nil {
-		d.rec.onCommit(d.KeyValueStore)
-	}
-	return err
+	return d.write(func() error { return d.KeyValueStore.Put(k, v) })
 }
 
 func (d *recDB) Delete(k []byte) error {
-	err := d.KeyValueStore.Delete(k)
-	if err == nil {
-		d.rec.onCommit(d.KeyValueStore)
-	}
-	return err
+	return d.write(func() error { return d.KeyValueStore.Delete(k) })
 }
 
 func (d *recDB) DeleteRange(a, b []byte) error {
-	err := d.KeyValueStore.DeleteRange(a, b)
-	if err == nil {
-		d.rec.onCommit(d.KeyValueStore)
-	}
-	return err
+	return d.write(func() error { return d.KeyValueStore.DeleteRange(a, b) })
 }
 
 type recBatch struct {
@@ -290,26 +295,14 @@ type recBatch struct {
 	d *recDB
 }
 
-func (b *recBatch) Write() error {
-	err := b.Batch.Write()
-	if err == nil {
-		b.d.rec.onCommit(b.d.KeyValueStore)
-	}
-	return err
-}
+func (b *recBatch) Write() error { return b.d.write(b.Batch.Write) }
 
 type recIBatch struct {
 	db.IndexedBatch
 	d *recDB
 }
 
-func (b *recIBatch) Write() error {
-	err := b.IndexedBatch.Write()
-	if err == nil {
-		b.d.rec.onCommit(b.d.KeyValueStore)
-	}
-	return err
-}
+func (b *recIBatch) Write() error { return b.d.write(b.IndexedBatch.Write) }
 
 func (d *recDB) NewBatch() db.Batch { return &recBatch{d.KeyValueStore.NewBatch(), d} }
 func (d *recDB) NewBatchWithSize(n int) db.Batch {
